@@ -153,7 +153,14 @@ func writeReplay(e *Engine, dir, prop string, r *OblResult) (string, bool) {
 	if r.Status == "refuted" && r.obl != nil {
 		rf.Model = parseModel(r.obl, r.Solve.Model)
 		ct := e.cs.Funcs[r.Func]
-		if ct != nil && ct.Replay != "" {
+		// `replay template[:filter]`: the template applies to obligations whose name contains filter
+		applies := ct != nil && ct.Replay != ""
+		if applies {
+			if i := strings.Index(ct.Replay, ":"); i >= 0 {
+				applies = strings.Contains(r.Name, ct.Replay[i+1:])
+			}
+		}
+		if applies {
 			runReplayTemplate(e, ct, r, &rf)
 		} else {
 			rf.Note = "no replay template for this function; counterexample is the solver model above"
@@ -171,7 +178,11 @@ func writeReplay(e *Engine, dir, prop string, r *OblResult) (string, bool) {
 // runReplayTemplate instantiates /verif/replay/templates/<name>.go.tmpl with the model and
 // runs it inside the target package with `go test -overlay`.
 func runReplayTemplate(e *Engine, ct *FuncContract, r *OblResult, rf *ReplayFile) {
-	tmplPath := filepath.Join(verifDir(), "replay", "templates", ct.Replay+".go.tmpl")
+	tname := ct.Replay
+	if i := strings.Index(tname, ":"); i >= 0 {
+		tname = tname[:i]
+	}
+	tmplPath := filepath.Join(verifDir(), "replay", "templates", tname+".go.tmpl")
 	src, err := os.ReadFile(tmplPath)
 	if err != nil {
 		rf.Note = "replay template missing: " + tmplPath
